@@ -277,6 +277,10 @@ COMMON_ASSUMPTIONS = [
 def replay(path, quiet=False):
     with open(path) as f:
         rec = json.load(f)
+    if rec['module'].endswith('.c17'):
+        # the compiled backend has to be on sys.path before torchtt is imported
+        from . import cppbuild
+        os.environ['TTMC_CPP_DIR'] = cppbuild.build(os.environ.get('TTMC_REPO', '/repo'), VERIF)[0]
     import torch
     torch.set_num_threads(1)
     mod = importlib.import_module(rec['module'])
